@@ -7,6 +7,7 @@ import (
 	"fmt"
 	"math/big"
 	"math/rand"
+	"strings"
 	"sync"
 	"sync/atomic"
 	"time"
@@ -16,6 +17,7 @@ import (
 	"perun.network/go-perun/client"
 	plog "perun.network/go-perun/log"
 	"perun.network/go-perun/wallet"
+	"perun.network/go-perun/watcher"
 	"perun.network/go-perun/watcher/local"
 	"perun.network/go-perun/wire"
 
@@ -119,6 +121,8 @@ type Party struct {
 	Adj     *ledger.Adjudicator
 
 	mu        sync.Mutex
+	watched   map[channel.ID]bool
+	published map[channel.ID][]uint64
 	channels  map[channel.ID]*client.Channel
 	newCh     chan *client.Channel
 	OnUpdate  UpdatePolicy
@@ -129,6 +133,8 @@ type Party struct {
 	UpdatesSeen int64
 	// Events are the adjudicator events handed to the client's event handler.
 	Events []channel.AdjudicatorEvent
+	// WatchErrs collects errors returned by Channel.Watch.
+	WatchErrs []error
 	// AcceptErrs collects errors of Accept calls on proposals.
 	AcceptErrs []error
 	// NoWatch disables starting the watcher for new channels.
@@ -145,6 +151,7 @@ func (w *World) NewParty(name string, funds int64) *Party {
 		panic(err)
 	}
 	p := &Party{Name: name, W: w, Acc: acc, Addr: addr, WAddr: gen.AddrMap(addr), Wire: gen.WireAddr(w.Rng),
+		watched: map[channel.ID]bool{}, published: map[channel.ID][]uint64{},
 		channels: map[channel.ID]*client.Channel{}, newCh: make(chan *client.Channel, 64), Timeout: 30 * time.Second}
 	for _, a := range w.Assets {
 		w.Ledger.Mint(addr, a, big.NewInt(funds))
@@ -156,7 +163,7 @@ func (w *World) NewParty(name string, funds int64) *Party {
 		panic(err)
 	}
 	p.Watcher = lw
-	c, err := client.New(p.Wire, w.Bus, w.Ledger.NewFunder(addr), p.Adj, map[wallet.BackendID]wallet.Wallet{gen.B: wal}, lw)
+	c, err := client.New(p.Wire, w.Bus, w.Ledger.NewFunder(addr), p.Adj, map[wallet.BackendID]wallet.Wallet{gen.B: wal}, &watchWrap{inner: lw, p: p})
 	if err != nil {
 		panic(err)
 	}
@@ -168,7 +175,23 @@ func (w *World) NewParty(name string, funds int64) *Party {
 		p.channels[ch.ID()] = ch
 		p.mu.Unlock()
 		if !p.NoWatch {
-			go func() { _ = ch.Watch(p) }()
+			go func() {
+				// Watch of a sub-channel needs the parent to be watched already; the parent's
+				// Watch goroutine may not have got that far yet, so retry for a while.
+				for try := 0; ; try++ {
+					err := ch.Watch(p)
+					if err != nil && try < 2000 && strings.Contains(err.Error(), "parent channel not registered") {
+						time.Sleep(100 * time.Microsecond)
+						continue
+					}
+					if err != nil {
+						p.mu.Lock()
+						p.WatchErrs = append(p.WatchErrs, err)
+						p.mu.Unlock()
+					}
+					return
+				}
+			}()
 		}
 		select {
 		case p.newCh <- ch:
@@ -178,6 +201,78 @@ func (w *World) NewParty(name string, funds int64) *Party {
 	go c.Handle(p, p)
 	w.Parties = append(w.Parties, p)
 	return p
+}
+
+// watchWrap delegates to the real local watcher and lets the harness know when a channel is
+// watched and which versions were published to the watcher.
+type watchWrap struct {
+	inner *local.Watcher
+	p     *Party
+}
+
+type pubWrap struct {
+	inner watcher.StatesPub
+	p     *Party
+}
+
+func (w *pubWrap) Publish(ctx context.Context, tx channel.Transaction) error {
+	err := w.inner.Publish(ctx, tx)
+	if tx.State != nil {
+		w.p.mu.Lock()
+		w.p.published[tx.State.ID] = append(w.p.published[tx.State.ID], tx.State.Version)
+		w.p.mu.Unlock()
+	}
+	return err
+}
+
+func (w *watchWrap) started(id channel.ID, pub watcher.StatesPub, sub watcher.AdjudicatorSub, err error) (watcher.StatesPub, watcher.AdjudicatorSub, error) {
+	if err != nil {
+		return pub, sub, err
+	}
+	w.p.mu.Lock()
+	w.p.watched[id] = true
+	w.p.mu.Unlock()
+	return &pubWrap{pub, w.p}, sub, nil
+}
+
+func (w *watchWrap) StartWatchingLedgerChannel(ctx context.Context, ss channel.SignedState) (watcher.StatesPub, watcher.AdjudicatorSub, error) {
+	pub, sub, err := w.inner.StartWatchingLedgerChannel(ctx, ss)
+	return w.started(ss.State.ID, pub, sub, err)
+}
+
+func (w *watchWrap) StartWatchingSubChannel(ctx context.Context, parent channel.ID, ss channel.SignedState) (watcher.StatesPub, watcher.AdjudicatorSub, error) {
+	pub, sub, err := w.inner.StartWatchingSubChannel(ctx, parent, ss)
+	return w.started(ss.State.ID, pub, sub, err)
+}
+
+func (w *watchWrap) StopWatching(ctx context.Context, id channel.ID) error {
+	return w.inner.StopWatching(ctx, id)
+}
+
+// Published returns the versions of a channel that were handed to the watcher.
+func (p *Party) Published(id channel.ID) []uint64 {
+	p.mu.Lock()
+	defer p.mu.Unlock()
+	return append([]uint64(nil), p.published[id]...)
+}
+
+// AwaitWatched waits until the watcher has accepted the channel (bounded).
+func (p *Party) AwaitWatched(id channel.ID) bool {
+	deadline := time.Now().Add(p.Timeout)
+	for {
+		p.mu.Lock()
+		ok := p.watched[id]
+		p.mu.Unlock()
+		if ok {
+			// Channel.Watch installs the publisher right after StartWatching returned
+			time.Sleep(300 * time.Microsecond)
+			return true
+		}
+		if time.Now().After(deadline) {
+			return false
+		}
+		time.Sleep(100 * time.Microsecond)
+	}
 }
 
 // Ctx returns a context with the party's generous operation timeout.
@@ -197,6 +292,9 @@ func (p *Party) AwaitChannel(id channel.ID) *client.Channel {
 	deadline := time.After(p.Timeout)
 	for {
 		if ch := p.Channel(id); ch != nil {
+			if !p.NoWatch {
+				p.AwaitWatched(id)
+			}
 			return ch
 		}
 		select {
